@@ -1,10 +1,12 @@
 """Human-written manifest text per property."""
 
-HOOK_COMMITS = ['2245d3a', '7959c84']  # filled from `git -C /repo log --grep 'verif hooks'` below
+HOOK_COMMITS = ['7959c84', '2245d3a', '4a48362', '0dcdeb5', '19f7951', '189a70e', '4ae8053', '2882d8c', '39a057c']  # filled from `git -C /repo log --grep 'verif hooks'` below
 
 NOTES = ("Technique family: machine-checked proof in Lean 4. Every check = lake build of the property's theorems (audited with #print axioms, "
          "no sorry/native_decide) + a correspondence run of the executable Lean model against the real Go code on the same op lines + a "
-         "property monitor on the real code's traces. See DESIGN.md. fix: commits in /repo: f53f956 (C05), d411d81 (C20), 86baac2 (C01), C19 (RequireAndVerifyClientCert).")
+         "property monitor on the real code's traces. See DESIGN.md (section 10: as built, findings, seeded changes). fix: commits in /repo: f53f956 (C05), "
+         "d411d81 (C20), 86baac2 (C01), 486249c (C19), 47b8cca (C12), 0c8aedd + 4cf9556 + 0317a97 (C08), fd5bf30 (C17), 2bb98c9 (C10), 9ffa6d6 (C09), "
+         "bac8f7c (C13); recorded-not-repaired findings in known_findings.json (C04 x2, C08 x4, C09 x1).")
 
 NOT_APPLICABLE = {}
 
